@@ -130,6 +130,11 @@ def aggregate(rep, jobs, names):
         rep.count("sampled_satisfying_tuples", r.get("sampled_satisfying", 0))
         rep.count("entailment_answers_sampled", r.get("entail_sampled", 0))
         rep.maxc("max_arity_called", r.get("max_arity", 0))
+        rep.count("hull_decided_by_support_oracle", r.get("hull_by_support", 0))
+        rep.count("hull_oracles_cross_checked", r.get("cross_checked", 0))
+        if r.get("oracle_mismatch"):
+            rep.inconclusive.append("the enumerating and the support hull oracles disagree on %d call(s), e.g. %r" % (
+                r["oracle_mismatch"], r.get("mismatch_samples")))
         if r.get("truncated"):
             truncated += 1
         for s in r["samples"]:
